@@ -6,6 +6,7 @@ import (
 	"bytes"
 	"sync"
 	"sync/atomic"
+	"time"
 
 	"github.com/NethermindEth/juno/db"
 	"github.com/NethermindEth/juno/db/memory"
@@ -38,6 +39,52 @@ type hookDB struct {
 	afterWrite func(w writeInfo)
 	nWrites    int
 	suAtLast   int64
+
+	// Tick gate (worlds with a fast min-age sample ticker, minage-reorg): the ticker's sampleHeight reads the chain
+	// height and then block headers; the harness' own Store / RevertHead must not land between those reads (the
+	// search would run into a header that has just been reverted: an error nobody injected). The pruner's
+	// goroutine is "in a read sequence" from a chain-height read until its next chain-height / L1-head read;
+	// while the harness holds the gate closed, that next read waits.
+	gmu    sync.Mutex
+	gquiet bool
+	inRead bool
+}
+
+// gate is passed by every chain-height / L1-head read of the pruner.
+func (h *hookDB) gate(isHeight bool) {
+	h.gmu.Lock()
+	h.inRead = false
+	for h.gquiet {
+		h.gmu.Unlock()
+		time.Sleep(20 * time.Microsecond)
+		h.gmu.Lock()
+	}
+	h.inRead = isHeight
+	h.gmu.Unlock()
+}
+
+// quietBegin closes the gate and waits until the pruner's goroutine is outside a read sequence (it is after at
+// most one tick interval; a pruner that has exited never comes back: bounded wait). No-op inside a batch-write
+// hook (the harness then runs ON the pruner's goroutine, in the middle of a prune: nothing else can run).
+func (h *hookDB) quietBegin() bool {
+	if h.busy.Load() > 0 {
+		return false
+	}
+	h.gmu.Lock()
+	h.gquiet = true
+	for deadline := time.Now().Add(10 * time.Second); h.inRead && time.Now().Before(deadline); {
+		h.gmu.Unlock()
+		time.Sleep(20 * time.Microsecond)
+		h.gmu.Lock()
+	}
+	h.gmu.Unlock()
+	return true
+}
+
+func (h *hookDB) quietEnd() {
+	h.gmu.Lock()
+	h.gquiet = false
+	h.gmu.Unlock()
 }
 
 // writeInfo describes one batch write of the pruner.
@@ -59,8 +106,10 @@ func newHookDB(inner *memory.Database) *hookDB { return &hookDB{Database: inner}
 func (h *hookDB) Get(key []byte, cb func([]byte) error) error {
 	switch {
 	case bytes.Equal(key, l1HeadKey):
+		h.gate(false)
 		h.l1Reads.Add(1)
 	case bytes.Equal(key, chainHeightKey):
+		h.gate(true)
 		h.heightReads.Add(1)
 	case bytes.HasPrefix(key, suPrefix) && len(key) == len(suPrefix)+8:
 		n := h.suReads.Add(1)
